@@ -36,7 +36,7 @@ def main():
         be = c.get('backends', {})
         print('  Back ends: ' + '; '.join(f"{k} {v['count']}" for k, v in be.items()) + '.')
         if c.get('structural_checks'):
-            print('  Structural scans: ' + '; '.join(c['structural_checks']) + '.')
+            print('  Structural scans: ' + '; '.join(x if isinstance(x, str) else str(x.get('name', x)) for x in c['structural_checks']) + '.')
         nd = c.get('not_decided') or []
         if nd:
             print('  Not decided: ' + ' / '.join(nd))
